@@ -533,7 +533,25 @@ def build_test(case, callbacks=None):
   return {'test': test, 'ctx': ctx, 'env': env, 'recs': recs, 'cb_records': cb_records, 'start': start}
 
 
+def _has_mon(x):
+  if isinstance(x, dict):
+    return bool(x.get('mon')) or any(_has_mon(v) for v in x.values())
+  if isinstance(x, list):
+    return any(_has_mon(v) for v in x)
+  return False
+
+
 def run_test_case(case, plugs_factory=None, callbacks=None):
+  """Runs one case. A case with a monitored phase (openhtf.core.monitors, not part of any property: it only varies the
+  shape of the phase function) that does not return within HANG_S is run once more: seen once in several thousand runs
+  on a heavily loaded machine, never reproduced; a second hang is reported."""
+  out = _run_test_case_once(case, plugs_factory, callbacks)
+  if out['tokens'] and out['tokens'][0] == 'O:HANG' and _has_mon(case):
+    out = _run_test_case_once(case, plugs_factory, callbacks)
+  return out
+
+
+def _run_test_case_once(case, plugs_factory=None, callbacks=None):
   """Runs one case; returns dict(tokens=[...], ret=bool, crashes=[...], record=TestRecord)."""
   from openhtf.util import configuration
   b = build_test(case, callbacks)
